@@ -135,6 +135,21 @@ Definition validate_opt (cur : N) (vals : option (list N)) (e : event) (ps : lis
     end
   end.
 
+(* ---------- one Checkers object used many times.  The Checker structs hold nothing but the Reader
+   (basiccheck.Checker and parentscheck.Checker are empty, epochcheck.Checker = {reader}); every
+   Validate asks the Reader anew.  [rstate] = what the Reader answers at the time of a call. *)
+Record rstate := { r_epoch : N; r_vals : list N }.
+(* the state a Checkers object carries from one call to the next: none *)
+Definition cstate := unit.
+Definition checkers_step (st : cstate) (rs : rstate) (e : event) (ps : list parent) : result * cstate :=
+  (validate (r_epoch rs) (r_vals rs) e ps, st).
+Fixpoint run_history (st : cstate) (h : list (rstate * event * list parent)) : list result :=
+  match h with
+  | [] => []
+  | (rs, e, ps) :: rest =>
+    let '(r, st') := checkers_step st rs e ps in r :: run_history st' rest
+  end.
+
 (* numbering of results for the case files: 0 = nil *)
 Definition result_code (r : result) : N :=
   match r with
